@@ -51,4 +51,5 @@ Next == /\ Len(path) < FreeDepth
         /\ UNCHANGED slot
 
 EmitInv == path # << >> => EmitCase("free", CaseLine)
+IdemInv == path # << >> => IdempotentAll(CaseLine)
 =============================================================================
